@@ -14,7 +14,7 @@ RULE = ("worlds of every party / EVSE / battery class with 1-3 injected schedule
 PROBES = ["resume:rerun", "resume:json_str", "resume:json_buf", "resume:json_file", "resume:json_io_fault", "resume:json_handle", "resume:json_twice", "crash_last_period",
           "crash_timer_pending", "double_crash_same_period", "crash_before_first_event", "crash_after_inner",
           "pending_plugin_at_crash", "pending_recompute_at_crash", "schedule_history_on", "noisy_battery",
-          "rampdown_estimator_json_resume", "uninterrupted_crash_after_inner", "mutate_then_crash", "two_sessions_share_an_id"]
+          "rampdown_estimator_json_resume", "uninterrupted_crash_after_inner", "mutate_then_crash", "two_sessions_share_an_id", "subclass_defined_again_under_the_same_name"]
 FAULT_DIMENSION = "scheduler crash at arbitrary calls (optionally after scribbling over everything it was handed) x 8 resume modes (only JSON survives in 7 of them; one of them with a disk that fills up during the first two save attempts, a missing directory, an overwrite of a longer file and a load from an open handle; one through the caller's open handles; one checkpoint of a checkpoint); noise tape continues across restarts"
 ASSUMPTIONS = ["signals is None or JSON-able (a tariff object is documented as not serialised)",
                "start is a naive datetime (tzinfo is not part of the serial form)",
@@ -50,6 +50,12 @@ def gen(rs, tier):
         sc["dup_session_id"] = a_["session_id"]
         if sc["party"].get("estimator") in ("stub", "rampdown"):
             sc["party"]["estimator"] = "none"
+    rdef = world.sub(rs, "defined_again")
+    ideal_ = [s_ for s_ in sc["sessions"] if s_["battery"]["type"] == "Battery"]
+    if ideal_ and rdef.random() < 0.08 and not sc.get("second_life"):
+        for s_ in ideal_:
+            s_["battery"]["sub"] = True
+        sc["battery_class_defined_again"] = True
     if sc["party"].get("estimator") == "rampdown":
         # SimpleRampdown keeps per-session state in the scheduler (not serialised, by design): only crashes BEFORE the
         # algorithm ran leave that state equal to the uninterrupted run's
@@ -110,7 +116,40 @@ def after_load(ctx, old, new, info):
     info["problems"] = probs
 
 
+def _second_definition():
+    """An earlier study in this process defined a Battery subclass, saved and loaded an object of it; the present study defines a class
+    of the SAME name in the same module (a notebook cell run again with an edit: an 'eco mode' taking half the offered current).
+    Checkpoints of the present study must be rebuilt with the present definition. Returns the function that undoes the rebinding."""
+    from .. import build as B
+    first = B.LoggingBattery
+    b0 = first(10.0, 1.0, 5.0)
+    first.from_json(b0.to_json())
+
+    class LoggingBattery(sut.Battery):
+        def charge(self, pilot, voltage, period):
+            return super().charge(pilot * 0.5, voltage, period)
+
+        def reset(self, init_charge=None):
+            return super().reset(init_charge)
+    LoggingBattery.__module__ = first.__module__
+    LoggingBattery.__qualname__ = "LoggingBattery"
+    B.LoggingBattery = LoggingBattery
+    return lambda: setattr(B, "LoggingBattery", first)
+
+
 def check(sc):
+    undo = _second_definition() if sc.get("battery_class_defined_again") else None
+    try:
+        out = _check(sc)
+    finally:
+        if undo is not None:
+            undo()
+    if undo is not None:
+        out.probe("subclass_defined_again_under_the_same_name")
+    return out
+
+
+def _check(sc):
     tr = driver.run_world(sc, observe=0, after_load=after_load)
     crashes = [c for c in tr.calls if c.get("crashed")]
     out = base_outcome(tr, extra_sig=[(c["t"], r["mode"]) for c, r in zip(crashes, tr.resumes)])
